@@ -23,7 +23,7 @@ import constcheck
 
 THEOREMS = ["Rtr.C17.constants_are_rfc8210", "Rtr.C17.bounds_are_rfc8210", "Rtr.C17.modes_and_versions",
             "Rtr.C17.init_rejects_out_of_range", "Rtr.C17.mgr_init_rejects_out_of_range", "Rtr.C17.eod_intervals",
-            "Rtr.C17.in_range_unless_accept_any", "Rtr.C17.accept_any_leaves_range", "Rtr.C17.v0_never_changes",
+            "Rtr.C17.in_range_unless_accept_any", "Rtr.C17.history_in_range", "Rtr.C17.accept_any_leaves_range", "Rtr.C17.v0_never_changes",
             "Rtr.C17.sync_timers", "Rtr.C17.sync_v0_never_changes", "Rtr.C17.sync_in_range", "Rtr.C17.poll_deadline",
             "Rtr.C17.poll_deadline_bounded", "Rtr.C17.notify_polls_immediately", "Rtr.C17.notify_then_query",
             "Rtr.C17.trace_polls_within_timeout"]
@@ -94,7 +94,7 @@ class Op:
 
 def gen(tier, r):
     ops = []
-    mult = 1 if tier == "quick" else 20
+    mult = 4 if tier == "quick" else 60
 
     # rtr_check_interval_range
     for f in RANGE:
@@ -146,8 +146,6 @@ def gen(tier, r):
         for f in RANGE:
             for x in boundary(f):
                 for (sv, pv) in [(1, 1), (0, 0), (1, 0), (0, 1)]:
-                    if (sv, pv) != (1, 1) and r.random() < 0.5 and tier == "quick":
-                        continue
                     cur = dict((k, rnd_in_range(r, k)) for k in RANGE)
                     sent = dict((k, (rnd_in_range(r, k) if r.random() < 0.5 else rnd_u32(r))) for k in RANGE)
                     sent[f] = x
@@ -159,6 +157,11 @@ def gen(tier, r):
         cur = dict((k, (rnd_in_range(r, k) if r.random() < 0.7 else rnd_u32(r))) for k in RANGE)
         sent = dict((k, rnd_u32(r)) for k in RANGE)
         ops.append(eod_op(mode, sv, pv, cur, sent, r.randrange(1, 10 ** 9)))
+
+    # rtr_set_interval_mode: only the four declared modes are accepted
+    for cur in MODES + [9]:
+        for o in MODES + [-1, 4, 2 ** 31 - 1, r.randrange(-100, 100)]:
+            ops.append(Op("setmode %d %d" % (cur, o), "setmode", cur=cur, o=o))
 
     # rtr_wait_for_sync: clock before / at / after the deadline, refresh at its extremes
     for refresh in [1, 2, 3600, 86400, 0, 86401, U32MAX]:
@@ -232,6 +235,8 @@ def parse_op(line):
             return Op(line, "eod", mode=int(w[1]), sv=int(w[2]), pv=int(w[3]),
                       cur={"refresh": int(w[4]), "expire": int(w[5]), "retry": int(w[6])},
                       sent={"refresh": int(w[7]), "retry": int(w[8]), "expire": int(w[9])}, now=int(w[10]))
+        if w[0] == "setmode":
+            return Op(line, "setmode", cur=int(w[1]), o=int(w[2]))
         if w[0] == "wait":
             return Op(line, "wait", last=int(w[1]), refresh=int(w[2]), now=int(w[3]), ev=w[4])
         if w[0] == "fsm":
@@ -331,6 +336,9 @@ def oracle(op, out):
                     if in_range(f, op.cur[f]) and not in_range(f, got[f]):
                         msgs.append("mode %d (not accept-any): %s interval left its range: %d" % (op.mode, f, got[f]))
             return msgs
+        if op.kind == "setmode":
+            exp = op.o if op.o in MODES else op.cur
+            return [] if int(w[0]) == exp else ["rtr_set_interval_mode(%d) on mode %d left mode %s" % (op.o, op.cur, w[0])]
         if op.kind == "wait":
             rc, t = int(w[0]), int(w[1])
             msgs = []
@@ -417,6 +425,7 @@ def oracle_fsm(op, items):
 def clause(op):
     return {"range": "range-check", "opt": "mode-application", "init": "init-range", "mgrinit": "init-range",
             "eod": "eod-intervals" if op.kind == "eod" and op.pv == 1 else "v0-unchanged", "wait": "poll-deadline",
+            "setmode": "mode-application",
             "fsm": "poll-deadline"}[op.kind]
 
 
@@ -426,6 +435,12 @@ def run(pid, tier):
     if info is None:
         return rep.finish()
     proved = vlib.prove(rep, MODULES, THEOREMS, extra_targets=["constdriver"])
+    if proved and tier == "thorough":
+        ok, log = vlib.leanchecker(MODULES[0])
+        rep.cov["leanchecker"] = "ok" if ok else "FAILED"
+        if not ok:
+            proved = False
+            rep.build_log = log
     drv = constcheck.ensure_driver(rep)
     if drv is None:
         return rep.finish()
@@ -437,7 +452,7 @@ def run(pid, tier):
 
     r = vlib.rng(pid)
     ops = []
-    for _f, ls in constcheck.corpus_lines({"range", "opt", "init", "mgrinit", "eod", "wait", "fsm"}):
+    for _f, ls in constcheck.corpus_lines({"range", "opt", "init", "mgrinit", "eod", "wait", "fsm", "setmode"}):
         for l in ls:
             o = parse_op(l)
             if o is not None:
